@@ -9,6 +9,8 @@ import (
 	"fmt"
 	"io/ioutil"
 	"os"
+	"runtime/debug"
+	"runtime/pprof"
 	"sort"
 	"strconv"
 
@@ -68,9 +70,17 @@ func main() {
 		if tier == "thorough" {
 			budget = c.ThoroughBudget
 		}
+		if pf := os.Getenv("VERIF_CPUPROFILE"); pf != "" {
+			f, _ := os.Create(pf)
+			pprof.StartCPUProfile(f)
+			defer pprof.StopCPUProfile()
+		}
+		debug.SetGCPercent(400)
 		r := h.NewRun(id, tier, seed, c.Level, budget)
 		c.Run(r)
-		os.Exit(r.Finish())
+		code := r.Finish()
+		pprof.StopCPUProfile()
+		os.Exit(code)
 	case "replay":
 		if len(os.Args) < 3 {
 			usage()
